@@ -76,9 +76,19 @@ def _regen(bdir, gen, tool, src):
         return out
     if tool == "bison":
         cmd = ["bison", "-d", "-Wno-yacc", "-Wno-other", "-o", out, srcp]
+        r = subprocess.run(cmd, stdout=subprocess.PIPE, stderr=subprocess.STDOUT, text=True)
     else:
-        cmd = ["flex", "-o", out, srcp]
-    r = subprocess.run(cmd, stdout=subprocess.PIPE, stderr=subprocess.STDOUT, text=True)
+        # like automake's ylwrap: run flex in a private directory and rename whatever it wrote
+        import tempfile, glob, shutil
+        tmp = tempfile.mkdtemp(dir=gdir)
+        cmd = ["flex", srcp]
+        r = subprocess.run(cmd, cwd=tmp, stdout=subprocess.PIPE, stderr=subprocess.STDOUT, text=True)
+        made = glob.glob(os.path.join(tmp, "lex.*.c"))
+        if r.returncode == 0 and made:
+            shutil.move(made[0], out)
+        elif r.returncode == 0:
+            r.returncode = 1
+        shutil.rmtree(tmp, ignore_errors=True)
     if r.returncode != 0:
         raise BuildError("generator failed: %s\n%s" % (" ".join(cmd), r.stdout[-3000:]))
     return out
